@@ -102,6 +102,21 @@ def run(ctx):
         subsets = [[]] + [list(s) for k in range(1, nb + 1) for s in itertools.combinations(range(nb), k)]
         if quick:
             subsets = [[]] + ctx.rng.sample(subsets[1:], min(3, len(subsets) - 1))
+            if nb >= 2 and not any(len(x) >= 2 for x in subsets):
+                subsets.append(list(range(nb))[-2:])
+        # the versions may be named in ANY order (and once more than needed): descending and shuffled lists too
+        ordered = []
+        for x in subsets:
+            y = list(x)
+            if len(y) >= 2:
+                if ctx.rng.random() < 0.5:
+                    y.reverse()
+                else:
+                    ctx.rng.shuffle(y)
+                    if y == sorted(y):
+                        y.reverse()
+            ordered.append(y)
+        subsets = ordered
         for ids in subsets:
             for dry in (False, True):
                 cid = f"{b['id']}_{'-'.join(map(str, ids)) or 'gc'}_{'dry' if dry else 'real'}"
